@@ -201,9 +201,11 @@ CLAIMED.update({
              'pyEq_eq: keys deemed equal encode identically). Tie: write_struct histories over colliding keys vs the '
              'stateless Lean encoder; oracle: target specification written after other files / twice / after a '
              'mutation vs a fresh subprocess.',
-        note='PARTIAL: per-object state that survives a write (values derived from data - known finding under C13 -, merged '
-             '_data_dict, sticky cast dtype) has no theorem; covered by the fresh-process oracle on generated histories. '
-             'The compatibility flag is C17.',
+        note='For the dimension derived at write time (parameter / computation / calibration measurement) the model carries '
+             'the derived-or-assigned state between checks and derived_dimension_history_independent proves that no check '
+             'depends on earlier ones. PARTIAL: other per-object state that survives a write (frame index attributes, '
+             'data registries, sticky cast dtype) has no theorem; covered by fresh-process / fresh-build oracles on '
+             'generated histories. The compatibility flag is C17.',
         technique='Lean 4 proof (cache-coherence invariant over all histories) + correspondence + fresh-process oracle',
         design='§5 C14'),
     'C17': dict(
